@@ -319,7 +319,7 @@ def fmt_form(fm):
 
 def check_array_fills(rep, mod):
     R = rep.rule('L-ARRAY-FILL', 'every memset/memcpy of the library with a constant length whose destination is the first element of an array [N x T] has a length that is a multiple of sizeof(T), does not exceed '
-                 'N*sizeof(T), and is not the element COUNT N of an array of multi-byte elements (the table-clearing paths of the inflate table builders rely on clearing the whole lookup table)', floor=25, unit='fills')
+                 'N*sizeof(T), and is not the element COUNT N of an array of multi-byte elements (the table-clearing paths of the inflate table builders rely on clearing the whole lookup table)', floor=19, unit='fills')      # 27 before fix b47f2da turned the eight dictionary hash-table memset/memcpy into element loops (now under R-HASH-CLEAR)
     for f, i, n, es, ln in irrules.array_fills(mod):
         R.instance()
         bad = None
@@ -330,7 +330,7 @@ def check_array_fills(rep, mod):
         elif es > 1 and ln == n and ln < n * es:
             bad = 'length %d is the element count of the array, not its size in bytes (%d): only the first %d of %d elements are written and the rest keeps stale contents' % (ln, n * es, ln // es, n)
         elif 'memset' in i.callee and ln < n * es:
-            # all 17 constant-length memsets of arrays in the library clear the whole array (confirmed by reading); a partial clear leaves stale entries behind
+            # all constant-length memsets (17 before fix b47f2da, 13 after) of arrays in the library clear the whole array (confirmed by reading); a partial clear leaves stale entries behind
             bad = 'clears %d of the %d bytes of the array: the remaining elements keep stale contents' % (ln, n * es)
         R.check(bad is None, mod.where(f, i), '%s of [%d x %d-byte elements]: %s' % (base_name(i.callee).split('.')[1] if '.' in i.callee else i.callee, n, es, bad), key='L-ARRAY-FILL|%s|%d' % (f.name, i.line or 0),
                 sample='%s: %d bytes = %d x %d' % (f.name, ln, n, es) if f.name == 'make_inflate_huff_code_dist' else None)
